@@ -253,7 +253,11 @@ Theorem fit_safe : forall l o, l_origin l = Some o -> in_safe_area o = true ->
        end.
 Proof.
   intros l o Ho Hs He. apply in_safe_area_iff in Hs. destruct Hs as (Ux & Uy & [X0 X1] & [Y0 Y1]).
-  unfold layout_fit. rewrite Ho. destruct (l_extent l) as [e|].
+  assert (C1 : clamp0 (90 - s_val (p_x o)) = (90 - s_val (p_x o))%Q).
+  { unfold clamp0. assert (K : Qle_bool 0 (90 - s_val (p_x o)) = true) by (apply Qle_bool_iff; lra). rewrite K. reflexivity. }
+  assert (C2 : clamp0 (95 - s_val (p_y o)) = (95 - s_val (p_y o))%Q).
+  { unfold clamp0. assert (K : Qle_bool 0 (95 - s_val (p_y o)) = true) by (apply Qle_bool_iff; lra). rewrite K. reflexivity. }
+  unfold layout_fit. rewrite Ho, C1, C2. destruct (l_extent l) as [e|].
   - destruct He as [Uh Uv]. rewrite (size_add_pct _ _ Ux Uh), (size_add_pct _ _ Uy Uv). cbn [bind s_unit unit_eqb negb s_val].
     eexists. split; [reflexivity|]. cbn [st_h st_v].
     destruct (Qle_bool (Qred (s_val (p_x o) + s_val (st_h e))) 90) eqn:E1;
@@ -602,4 +606,204 @@ Proof.
     destruct (if w_fit c then layout_fit l1 else Ok l1) as [l2|] eqn:E2; [|discriminate].
     cbn [bind] in H. specialize (P2 _ eq_refl). eapply vtt_settings_pct; eauto. }
   destruct (l_webvtt l) as [[|ch raw]|]; [apply Main; exact H|inversion H; reflexivity|apply Main; exact H].
+Qed.
+
+(* after `fix: fit_to_screen gave a negative extent ...`: whatever the origin, a fitted extent that was computed is
+   never negative, and an extent that was given and non-negative stays non-negative *)
+Lemma clamp0_nonneg : forall q, (0 <= clamp0 q)%Q.
+Proof. intros q. unfold clamp0. destruct (Qle_bool 0 q) eqn:E; [apply Qle_bool_iff; exact E|lra]. Qed.
+
+Theorem fit_extent_never_negative : forall l r e', layout_fit l = Ok r -> l_origin l <> None -> l_extent r = Some e' ->
+  match l_extent l with Some e => (0 <= s_val (st_h e))%Q /\ (0 <= s_val (st_v e))%Q | None => True end ->
+  (0 <= s_val (st_h e'))%Q /\ (0 <= s_val (st_v e'))%Q.
+Proof.
+  intros l r e' H Ho He' Hn. unfold layout_fit in H. destruct (l_origin l) as [o|]; [|contradiction].
+  pose proof (clamp0_nonneg (90 - s_val (p_x o))) as N1. pose proof (clamp0_nonneg (95 - s_val (p_y o))) as N2.
+  destruct (l_extent l) as [e|].
+  - destruct (size_add (p_x o) (st_h e)) as [brx|]; [|discriminate]. destruct (size_add (p_y o) (st_v e)) as [bry|]; [|discriminate].
+    cbn [bind] in H. destruct (negb (unit_eqb (s_unit brx) PCT)); [discriminate|]. inversion H; subst. cbn [l_extent] in He'.
+    inversion He'; subst. cbn [st_h st_v]. destruct Hn as [H1 H2].
+    destruct (Qle_bool (s_val brx) 90), (Qle_bool (s_val bry) 95); cbn [s_val]; rewrite ?Qred_correct; split; assumption.
+  - inversion H; subst. cbn [l_extent] in He'. inversion He'; subst. cbn [st_h st_v s_val]. rewrite !Qred_correct. split; assumption.
+Qed.
+
+(* ---- which layouts each writer transforms, level by level; refusal exactly when one of them needs a missing
+        dimension --------------------------------------------------------------------------------------------- *)
+Definition node_step (c : wcfg) (n n' : nnode) : Prop := raf c (n_layout n) = Ok (n_layout n') /\ n_kind n' = n_kind n.
+Definition cap_step (c : wcfg) (cp cp' : ncap) : Prop :=
+  raf c (nc_layout cp) = Ok (nc_layout cp') /\ Forall2 (node_step c) (nc_nodes cp) (nc_nodes cp').
+
+Lemma nodes_step : forall c ns ns', res_map (raf_node c) ns = Ok ns' -> Forall2 (node_step c) ns ns'.
+Proof.
+  intros c ns ns' E2. apply res_map_F2 in E2.
+  induction E2 as [|n n' t t' Hn _ IH]; constructor; [|exact IH]. unfold raf_node in Hn.
+  destruct (raf c (n_layout n)) eqn:E; [|discriminate]. cbn [bind] in Hn. inversion Hn; subst. split; [exact E|reflexivity].
+Qed.
+
+Lemma raf_cap_step : forall c cp cp', raf_cap c cp = Ok cp' -> cap_step c cp cp'.
+Proof.
+  intros c cp cp' H. unfold raf_cap in H. destruct (raf c (nc_layout cp)) eqn:E1; [|discriminate]. cbn [bind] in H.
+  destruct (res_map (raf_node c) (nc_nodes cp)) as [ns|] eqn:E2; [|discriminate]. cbn [bind] in H. inversion H; subst.
+  split; [exact E1|]. cbn [nc_nodes]. apply nodes_step. exact E2.
+Qed.
+
+Lemma caps_step : forall c caps caps', res_map (raf_cap c) caps = Ok caps' -> Forall2 (cap_step c) caps caps'.
+Proof.
+  intros c caps caps' H. apply res_map_F2 in H. induction H as [|x y t t' Hx _ IH]; constructor; [apply raf_cap_step; exact Hx|exact IH].
+Qed.
+
+Lemma dfxp_langs_step : forall c lgs lgs', res_map (dfxp_lang c) lgs = Ok lgs' ->
+  Forall2 (fun lg lg' => rel_only c (nl_layout lg) = Ok (nl_layout lg') /\ Forall2 (cap_step c) (nl_caps lg) (nl_caps lg')) lgs lgs'.
+Proof.
+  intros c lgs lgs' E. apply res_map_F2 in E. induction E as [|lg lg' t t' Hl _ IH]; constructor; [|exact IH]. unfold dfxp_lang in Hl.
+  destruct (rel_only c (nl_layout lg)) eqn:E1; [|discriminate]. cbn [bind] in Hl.
+  destruct (res_map (raf_cap c) (nl_caps lg)) eqn:E2; [|discriminate]. cbn [bind] in Hl. inversion Hl; subst.
+  split; [first [exact E1|reflexivity]|apply caps_step; exact E2].
+Qed.
+
+Lemma sami_langs_step : forall c lgs lgs', res_map (sami_lang c) lgs = Ok lgs' ->
+  Forall2 (fun lg lg' => raf c (nl_layout lg) = Ok (nl_layout lg') /\ Forall2 (cap_step c) (nl_caps lg) (nl_caps lg')) lgs lgs'.
+Proof.
+  intros c lgs lgs' E. apply res_map_F2 in E. induction E as [|lg lg' t t' Hl _ IH]; constructor; [|exact IH]. unfold sami_lang in Hl.
+  destruct (raf c (nl_layout lg)) eqn:E1; [|discriminate]. cbn [bind] in Hl.
+  destruct (res_map (raf_cap c) (nl_caps lg)) eqn:E2; [|discriminate]. cbn [bind] in Hl. inversion Hl; subst.
+  split; [first [exact E1|reflexivity]|apply caps_step; exact E2].
+Qed.
+
+(* DFXPWriter (repaired): set level untouched, language level relativized (not fitted), caption and node level
+   through _relativize_and_fit_to_screen; structure and node kinds kept *)
+Theorem dfxp_transform_levels : forall c s s', dfxp_transform c s = Ok s' ->
+  ns_layout s' = ns_layout s
+  /\ Forall2 (fun lg lg' => rel_only c (nl_layout lg) = Ok (nl_layout lg') /\ Forall2 (cap_step c) (nl_caps lg) (nl_caps lg'))
+             (ns_langs s) (ns_langs s').
+Proof.
+  intros c s s' H. unfold dfxp_transform in H. destruct (res_map (dfxp_lang c) (ns_langs s)) as [ls|] eqn:E; [|discriminate].
+  cbn [bind] in H. inversion H; subst. split; [reflexivity|]. cbn [ns_langs]. apply dfxp_langs_step. exact E.
+Qed.
+
+(* SAMIWriter: all four levels through _relativize_and_fit_to_screen *)
+Theorem sami_transform_levels : forall c s s', sami_transform c s = Ok s' ->
+  raf c (ns_layout s) = Ok (ns_layout s')
+  /\ Forall2 (fun lg lg' => raf c (nl_layout lg) = Ok (nl_layout lg') /\ Forall2 (cap_step c) (nl_caps lg) (nl_caps lg'))
+             (ns_langs s) (ns_langs s').
+Proof.
+  intros c s s' H. unfold sami_transform in H. destruct (raf c (ns_layout s)) eqn:Eg; [|discriminate]. cbn [bind] in H.
+  destruct (res_map (sami_lang c) (ns_langs s)) as [ls|] eqn:E; [|discriminate].
+  cbn [bind] in H. inversion H; subst. split; [reflexivity|]. cbn [ns_langs]. apply sami_langs_step. exact E.
+Qed.
+
+(* refusal: a layout that is positioned with (truthy) and has a length needing an absent dimension *)
+Definition opt_needs (c : wcfg) (o : option layout) : bool :=
+  match o with Some l => layout_truthy l && needs_missing (w_w c) (w_h c) l | None => false end.
+
+Lemma res_map_err_iff : forall {A B} (f : A -> result B) l,
+  (exists e, res_map f l = Err e) <-> (exists x, In x l /\ exists e, f x = Err e).
+Proof.
+  intros A B f l. split.
+  - intros [e H]. destruct (res_map_err _ _ _ H) as (x & Hx & Hf). eauto.
+  - induction l as [|a l IH]; intros (x & Hx & e & He); [destruct Hx|]. cbn [res_map].
+    destruct (f a) as [b|e0] eqn:Ea.
+    + cbn [bind]. destruct Hx as [->|Hx]; [congruence|].
+      destruct (IH (ex_intro _ x (conj Hx (ex_intro _ e He)))) as [e' He']. rewrite He'. cbn [bind]. exists e'. reflexivity.
+    + cbn [bind]. exists e0. reflexivity.
+Qed.
+
+Lemma raf_refused_iff : forall c o, w_rel c = true -> ((exists e, raf c o = Err e) <-> opt_needs c o = true).
+Proof.
+  intros c [l|] Hr; cbn [raf opt_needs]; [|split; [intros [e H]; discriminate|discriminate]].
+  rewrite Hr. unfold relativize_and_fit. destruct (layout_truthy l) eqn:T; cbn [andb].
+  - destruct (layout_as_pct l (w_w c) (w_h c)) as [l1|e1] eqn:E.
+    + cbn [bind]. assert (N : needs_missing (w_w c) (w_h c) l = false).
+      { destruct (needs_missing (w_w c) (w_h c) l) eqn:N; [|reflexivity].
+        apply (proj1 (layout_refused_iff l (w_w c) (w_h c))) in N. destruct N as [e N]. congruence. }
+      rewrite N. split; [|discriminate]. intros [e H]. destruct (w_fit c).
+      * destruct (layout_fit_pct_ok l1 (layout_as_pct_all_pct _ _ _ _ E)) as [r Hr']. rewrite Hr' in H. discriminate.
+      * discriminate.
+    + cbn [bind]. split; [intros _|eauto]. apply (proj1 (layout_refused_iff l (w_w c) (w_h c))). eauto.
+  - split; [intros [e H]; discriminate|discriminate].
+Qed.
+
+Lemma rel_only_refused_iff : forall c o, w_rel c = true -> ((exists e, rel_only c o = Err e) <-> opt_needs c o = true).
+Proof.
+  intros c [l|] Hr; cbn [rel_only opt_needs]; [|split; [intros [e H]; discriminate|discriminate]].
+  rewrite Hr, andb_true_r. destruct (layout_truthy l); cbn [andb]; [|split; [intros [e H]; discriminate|discriminate]].
+  destruct (layout_as_pct l (w_w c) (w_h c)) as [l1|e1] eqn:E; cbn [bind].
+  - split; [intros [e H]; discriminate|]. intros N. apply (proj1 (layout_refused_iff l (w_w c) (w_h c))) in N.
+    destruct N as [e N]. congruence.
+  - split; [intros _|eauto]. apply (proj1 (layout_refused_iff l (w_w c) (w_h c))). eauto.
+Qed.
+
+Lemma raf_cap_refused_iff : forall c cp, w_rel c = true ->
+  ((exists e, raf_cap c cp = Err e) <-> existsb (opt_needs c) (nc_layout cp :: map n_layout (nc_nodes cp)) = true).
+Proof.
+  intros c cp Hr. cbn [existsb]. rewrite orb_true_iff, <- (raf_refused_iff c (nc_layout cp) Hr).
+  assert (Nodes : (exists e, res_map (raf_node c) (nc_nodes cp) = Err e) <-> existsb (opt_needs c) (map n_layout (nc_nodes cp)) = true).
+  { rewrite res_map_err_iff, existsb_exists. split.
+    - intros (n & Hn & e & He). exists (n_layout n). split; [apply in_map; exact Hn|]. apply (raf_refused_iff c _ Hr).
+      unfold raf_node in He. destruct (raf c (n_layout n)) eqn:E; [discriminate|eauto].
+    - intros (o & Ho & Hneed). apply in_map_iff in Ho. destruct Ho as (n & <- & Hn). exists n. split; [exact Hn|].
+      apply (raf_refused_iff c _ Hr) in Hneed. destruct Hneed as [e He]. exists e. unfold raf_node. rewrite He. reflexivity. }
+  rewrite <- Nodes. unfold raf_cap. destruct (raf c (nc_layout cp)) eqn:E1; cbn [bind].
+  - destruct (res_map (raf_node c) (nc_nodes cp)) eqn:E2; cbn [bind].
+    + split; [intros [e H]; discriminate|intros [[e H]|[e H]]; discriminate].
+    + split; [intros _; right; eauto|eauto].
+  - split; [intros _; left; eauto|eauto].
+Qed.
+
+Lemma caps_refused_iff : forall c caps, w_rel c = true ->
+  ((exists e, res_map (raf_cap c) caps = Err e)
+   <-> existsb (opt_needs c) (flat_map (fun cp => nc_layout cp :: map n_layout (nc_nodes cp)) caps) = true).
+Proof.
+  intros c caps Hr. rewrite res_map_err_iff, existsb_exists. split.
+  - intros (cp & Hcp & He). apply (raf_cap_refused_iff c cp Hr) in He. apply existsb_exists in He. destruct He as (o & Ho & Hn).
+    exists o. split; [apply in_flat_map; eauto|exact Hn].
+  - intros (o & Ho & Hn). apply in_flat_map in Ho. destruct Ho as (cp & Hcp & Ho). exists cp. split; [exact Hcp|].
+    apply (raf_cap_refused_iff c cp Hr). apply existsb_exists. eauto.
+Qed.
+
+(* DFXP: RelativizationError exactly when a language-, caption- or node-level layout that is positioned with has a length
+   on an axis whose video dimension is missing *)
+Theorem dfxp_refused_iff : forall c s, w_rel c = true ->
+  ((exists e, dfxp_transform c s = Err e) <-> existsb (opt_needs c) (written_layouts s) = true).
+Proof.
+  intros c s Hr. unfold dfxp_transform, written_layouts.
+  assert (L : forall lg, (exists e, dfxp_lang c lg = Err e) <-> existsb (opt_needs c) (written_layouts_lang lg) = true).
+  { intros lg. unfold written_layouts_lang. cbn [existsb]. rewrite orb_true_iff, <- (rel_only_refused_iff c _ Hr), <- (caps_refused_iff c _ Hr).
+    unfold dfxp_lang. destruct (rel_only c (nl_layout lg)) eqn:E1; cbn [bind].
+    - destruct (res_map (raf_cap c) (nl_caps lg)) eqn:E2; cbn [bind].
+      + split; [intros [e H]; discriminate|intros [[e H]|[e H]]; discriminate].
+      + split; [intros _; right; eauto|eauto].
+    - split; [intros _; left; eauto|eauto]. }
+  transitivity (exists e, res_map (dfxp_lang c) (ns_langs s) = Err e).
+  - destruct (res_map (dfxp_lang c) (ns_langs s)) as [okv|errv] eqn:E; cbn [bind]; split; intros [e' H]; try discriminate; eauto.
+  - rewrite res_map_err_iff, existsb_exists. split.
+    + intros (lg & Hlg & He). apply L in He. apply existsb_exists in He. destruct He as (o & Ho & Hn).
+      exists o. split; [apply in_flat_map; eauto|exact Hn].
+    + intros (o & Ho & Hn). apply in_flat_map in Ho. destruct Ho as (lg & Hlg & Ho). exists lg. split; [exact Hlg|].
+      apply L. apply existsb_exists. eauto.
+Qed.
+
+Theorem sami_refused_iff : forall c s, w_rel c = true ->
+  ((exists e, sami_transform c s = Err e) <-> existsb (opt_needs c) (ns_layout s :: written_layouts s) = true).
+Proof.
+  intros c s Hr. unfold sami_transform, written_layouts. cbn [existsb]. rewrite orb_true_iff, <- (raf_refused_iff c _ Hr).
+  assert (L : forall lg, (exists e, sami_lang c lg = Err e) <-> existsb (opt_needs c) (written_layouts_lang lg) = true).
+  { intros lg. unfold written_layouts_lang. cbn [existsb]. rewrite orb_true_iff, <- (raf_refused_iff c _ Hr), <- (caps_refused_iff c _ Hr).
+    unfold sami_lang. destruct (raf c (nl_layout lg)) eqn:E1; cbn [bind].
+    - destruct (res_map (raf_cap c) (nl_caps lg)) eqn:E2; cbn [bind].
+      + split; [intros [e H]; discriminate|intros [[e H]|[e H]]; discriminate].
+      + split; [intros _; right; eauto|eauto].
+    - split; [intros _; left; eauto|eauto]. }
+  assert (Ls : (exists e, res_map (sami_lang c) (ns_langs s) = Err e)
+               <-> existsb (opt_needs c) (flat_map written_layouts_lang (ns_langs s)) = true).
+  { rewrite res_map_err_iff, existsb_exists. split.
+    + intros (lg & Hlg & He). apply L in He. apply existsb_exists in He. destruct He as (o & Ho & Hn).
+      exists o. split; [apply in_flat_map; eauto|exact Hn].
+    + intros (o & Ho & Hn). apply in_flat_map in Ho. destruct Ho as (lg & Hlg & Ho). exists lg. split; [exact Hlg|].
+      apply L. apply existsb_exists. eauto. }
+  rewrite <- Ls. destruct (raf c (ns_layout s)) eqn:Eg; cbn [bind].
+  - destruct (res_map (sami_lang c) (ns_langs s)) eqn:E; cbn [bind].
+    + split; [intros [e H]; discriminate|intros [[e H]|[e H]]; discriminate].
+    + split; [intros _; right; eauto|eauto].
+  - split; [intros _; left; eauto|eauto].
 Qed.
